@@ -332,8 +332,10 @@ RunStmts(ss, i, env, S) == IF i > Len(ss) \/ S.err # "" THEN S ELSE RunStmts(ss,
 
 \* ---------- variables ----------
 \* case record c: [vars, stmts, bal (function <<acct,asset>> -> Int as nested record), meta, flags]
-Bal0(c, a, as) == IF a \in DOMAIN c.bal /\ as \in DOMAIN c.bal[a] THEN c.bal[a][as] ELSE 0
-InitVis(c) == LET pairs == UNION {{<<a, as>> : as \in DOMAIN c.bal[a]} : a \in DOMAIN c.bal}
+\* @world has no stored balance a script can see: it is never requested, so an entry the store content happens to
+\* hold for it does not exist for the script (balance(@world, X) reads 0; only the script's own postings move it)
+Bal0(c, a, as) == IF a # WORLD /\ a \in DOMAIN c.bal /\ as \in DOMAIN c.bal[a] THEN c.bal[a][as] ELSE 0
+InitVis(c) == LET pairs == UNION {{<<a, as>> : as \in DOMAIN c.bal[a]} : a \in DOMAIN c.bal \ {WORLD}}
               IN [p \in pairs |-> c.bal[p[1]][p[2]]]
 TypeTag(ty) == CASE ty = "monetary" -> "mon" [] ty = "account" -> "acct" [] ty = "asset" -> "asset"
                  [] ty = "number" -> "num" [] ty = "portion" -> "portion" [] ty = "string" -> "str" [] OTHER -> "?"
